@@ -19,6 +19,16 @@ sys.path.insert(0, ROOT)
 sys.path.insert(0, os.environ.get('VERIF_REPO', '/repo'))
 
 
+_JOBS = None
+
+
+def _run_job(k):
+    from pyvc import lemma
+    src, reg, jobs = _JOBS
+    name, b = jobs[k]
+    return k, lemma.run_lemma(src, reg, name, b, opts={'max_paths': 40000, 'budget_s': 600})
+
+
 def c03_multisig(tier='quick', seed=0):
     import z3
     from pyvc import driver, lemma, models
@@ -136,8 +146,15 @@ def c03_multisig(tier='quick', seed=0):
         return build
     obs, summary, und = [], {}, []
     jobs = [('C03/abs-sound', build_abs_sound)] + [(f'C03/m{m}n{n}', mk_lemma(m, n)) for m, n in shapes]
-    for name, b in jobs:
-        r = lemma.run_lemma(src, reg, name, b, opts={'max_paths': 40000})
+    global _JOBS
+    _JOBS = (src, reg, jobs)
+    from multiprocessing import get_context
+    # largest shapes first; forked workers inherit the job table (closures are not pickled)
+    order = sorted(range(len(jobs)), key=lambda k: -k)
+    with get_context('fork').Pool(min(16, len(jobs)), maxtasksperchild=1) as pool:
+        results = dict(pool.map(_run_job, order, chunksize=1))
+    for k, (name, b) in enumerate(jobs):
+        r = results[k]
         summary[name] = {'paths': r['paths'], 'obligations': len(r['obligations']), 'time_s': r['time_s'],
                          'undecided': r['undecided'], 'error': r['error']}
         # every obligation counts: the preconditions of the contracts applied inside a lemma justify
